@@ -9,3 +9,5 @@ mod c20_format;
 mod c01_router;
 #[cfg(kani)]
 mod c03_response;
+#[cfg(kani)]
+mod c18_shutdown;
